@@ -5,11 +5,14 @@ import (
 	"fmt"
 	"strings"
 
+	gqlparser "github.com/vektah/gqlparser/v2"
 	"github.com/vektah/gqlparser/v2/ast"
 	"github.com/vektah/gqlparser/v2/formatter"
 	"github.com/vektah/gqlparser/v2/parser"
+	"github.com/vektah/gqlparser/v2/validator"
 
 	"verif/harness/internal/core"
+	"verif/harness/internal/dgen"
 	"verif/harness/internal/gen"
 	"verif/harness/internal/model"
 	"verif/harness/internal/ref"
@@ -32,7 +35,7 @@ func init() {
 		Check:           c12Check,
 		DistinctClasses: []string{"feature"},
 		MinEvaluations:  func(tier string) int64 { return 1000 },
-		RequiredCounts:  []string{"roundtrips", "configs_checked", "with_hostile_string", "with_var_directive", "with_block_string", "with_comments"},
+		RequiredCounts:  []string{"validated_documents_formatted", "roundtrips", "configs_checked", "with_hostile_string", "with_var_directive", "with_block_string", "with_comments"},
 	})
 }
 
@@ -54,6 +57,16 @@ func c12Run(x *core.Ctx) {
 		}
 		c := core.NewCase("doc", "doc", rn.RenderDoc(d))
 		x.Do(c, func() { c12Check(x, c) })
+		if i%8 == 5 {
+			// a typed document that is VALIDATED before it is formatted (servers log and forward the documents they have
+			// validated): what validation hangs on the tree is not part of the document
+			sc := c08MakeSchema(r, i)
+			td := dgen.New(r, sc.mg, &dgen.Opts{MaxDepth: 1 + r.Intn(3), MaxOps: 1 + r.Intn(2), Introspect: i%3 == 0}).Doc()
+			if len(td.Defs) > 0 {
+				ct := core.NewCase("doc", "doc", rn.RenderDoc(td), "schema", sc.src)
+				x.Do(ct, func() { c12Check(x, ct) })
+			}
+		}
 	}
 }
 
@@ -252,6 +265,18 @@ func c12Check(x *core.Ctx, c *core.Case) {
 		return
 	}
 	want := model.FromAST(doc)
+	if ssrc := c.Get("schema"); ssrc != "" {
+		schema, lerr := gqlparser.LoadSchema(&ast.Source{Name: "schema.graphql", Input: ssrc})
+		if lerr != nil {
+			x.Count("skipped:schema-does-not-load")
+			return
+		}
+		if errs := validator.Validate(schema, doc); len(errs) > 0 {
+			x.Count("skipped:document-rejected")
+			return
+		}
+		x.Count("validated_documents_formatted")
+	}
 	ft := featuresOf(want, src)
 	x.Count("roundtrips")
 	if ft.hostile {
